@@ -535,12 +535,15 @@ package mqtt
 //@ ensures result == b.abool
 
 // registry invariant: registered clients are valid objects (trusted; established by newClient/attachClient)
-// verif:func mqtt.Clients.Get trusted
+// verif:func mqtt.Clients.Get
 //@ requires C32-lock-not-held-by-this-goroutine: cl.RWMutex.lheld == 0
 //@ ensures C32-lock-released-on-return: cl.RWMutex.lheld == 0
+//@ modifies cl.RWMutex.lheld
 //@ ensures r1 <==> has(cl.internal, id)
-//@ ensures r1 ==> r0 == cl.internal[id] && validCl(r0) && r0.State.Subscriptions != nil && r0.ID == id
+//@ ensures r1 ==> r0 == cl.internal[id]
 //@ ensures !r1 ==> r0 == nil
+// the registry's invariant (a registered client is one newClient built, registered under its own id), assumed here, not proved
+//@ axiom r1 ==> validCl(r0) && r0.State.Subscriptions != nil && r0.ID == id
 
 // verif:func mqtt.Server.UnsubscribeClient trusted
 //@ modifies subsview, nsubs, nev, evkind, evcl, evid, all(system.Info.Subscriptions), entries(cl.State.Subscriptions.internal)
@@ -786,16 +789,22 @@ package mqtt
 // verif:ext sync.WaitGroup.Done pure
 // verif:ext sync.WaitGroup.Wait pure
 
-// verif:func mqtt.Clients.Add trusted
+// verif:func mqtt.Clients.Add
 //@ requires C32-lock-not-held-by-this-goroutine: cl.RWMutex.lheld == 0
 //@ ensures C32-lock-released-on-return: cl.RWMutex.lheld == 0
 //@ requires C13-registered-only-after-its-connack-attempt: val.connacked
-//@ modifies val.registered, entries(cl.internal)
-//@ ensures val.registered
-// verif:func mqtt.Clients.Delete trusted
+//@ requires registry-allocated: val != nil && cl.internal != nil
+//@ modifies val.registered, entries(cl.internal), cl.RWMutex.lheld
+// (ghost: registered records that Add has been called for the client)
+//@ axiom val.registered
+//@ ensures registered-under-its-id: has(cl.internal, val.ID) && cl.internal[val.ID] == val
+//@ ensures other-entries-untouched: forall k string :: k != val.ID ==> (has(cl.internal, k) <==> old(has(cl.internal, k))) && (has(cl.internal, k) ==> cl.internal[k] == old(cl.internal[k]))
+// verif:func mqtt.Clients.Delete
 //@ requires C32-lock-not-held-by-this-goroutine: cl.RWMutex.lheld == 0
 //@ ensures C32-lock-released-on-return: cl.RWMutex.lheld == 0
-//@ modifies entries(cl.internal)
+//@ modifies entries(cl.internal), cl.RWMutex.lheld
+//@ ensures removed: !has(cl.internal, id)
+//@ ensures other-entries-untouched: forall k string :: k != id ==> (has(cl.internal, k) <==> old(has(cl.internal, k))) && (has(cl.internal, k) ==> cl.internal[k] == old(cl.internal[k]))
 
 // verif:func mqtt.Server.SendConnack modifies=all
 //@ requires validCl(cl) && validSrv(s) && (reason.Code < 128 ==> reason.Code == 0)
@@ -1409,8 +1418,8 @@ package mqtt
 //@ ensures r0 != nil && fresh(r0) && r0.ID == id && r0.Net.Listener == listener && r0.State.Inflight != nil && r0.State.Subscriptions != nil && r0.State.Subscriptions.internal != nil
 //@ ensures r0.ops != nil && r0.ops.options == s.Options && r0.ops.info == s.Info && r0.ops.hooks == s.hooks
 // the objects New() gives a server, which the restart path uses and never replaces
-// verif:def serverObjects(s *Server) bool = s != nil && s.Options != nil && s.Options.Capabilities != nil && s.Clients != nil && s.hooks != nil && s.Topics != nil && s.Topics.root != nil && s.Log != nil
-// verif:def serverObjectsKept(s *Server) bool = s.Options == old(s.Options) && s.Options.Capabilities == old(s.Options.Capabilities) && s.Clients == old(s.Clients) && s.hooks == old(s.hooks) && s.Topics == old(s.Topics) && s.Topics.root == old(s.Topics.root) && s.Log == old(s.Log)
+// verif:def serverObjects(s *Server) bool = s != nil && s.Options != nil && s.Options.Capabilities != nil && s.Clients != nil && s.Clients.internal != nil && s.hooks != nil && s.Topics != nil && s.Topics.root != nil && s.Log != nil
+// verif:def serverObjectsKept(s *Server) bool = s.Options == old(s.Options) && s.Options.Capabilities == old(s.Options.Capabilities) && s.Clients == old(s.Clients) && s.Clients.internal == old(s.Clients.internal) && s.hooks == old(s.hooks) && s.Topics == old(s.Topics) && s.Topics.root == old(s.Topics.root) && s.Log == old(s.Log)
 // verif:def restoredSession(cl *Client, c storage.Client) bool = cl != nil && cl.ID == c.ID && cl.Net.Listener == c.Listener && cl.Properties.Username == c.Username && (cl.Properties.Clean <==> c.Clean) && cl.Properties.ProtocolVersion == c.ProtocolVersion
 // verif:def restoredSessionProps(cl *Client, c storage.Client) bool = cl != nil && cl.Properties.Props.SessionExpiryInterval == c.Properties.SessionExpiryInterval && (cl.Properties.Props.SessionExpiryIntervalFlag <==> c.Properties.SessionExpiryIntervalFlag) && cl.Properties.Props.RequestProblemInfo == c.Properties.RequestProblemInfo && (cl.Properties.Props.RequestProblemInfoFlag <==> c.Properties.RequestProblemInfoFlag) && cl.Properties.Props.RequestResponseInfo == c.Properties.RequestResponseInfo && cl.Properties.Props.ReceiveMaximum == c.Properties.ReceiveMaximum && cl.Properties.Props.TopicAliasMaximum == c.Properties.TopicAliasMaximum && cl.Properties.Props.MaximumPacketSize == c.Properties.MaximumPacketSize
 // verif:def restoredWill(cl *Client, c storage.Client) bool = cl != nil && cl.Properties.Will.TopicName == c.Will.TopicName && cl.Properties.Will.Payload == c.Will.Payload && cl.Properties.Will.Qos == c.Will.Qos && (cl.Properties.Will.Retain <==> c.Will.Retain) && cl.Properties.Will.Flag == c.Will.Flag && cl.Properties.Will.WillDelayInterval == c.Will.WillDelayInterval
